@@ -218,7 +218,9 @@ func TestVerifCollapse(t *testing.T) {
 	defer f.Close()
 	log := bufio.NewWriterSize(f, 1<<20)
 	defer log.Flush()
+	hb := bHeartbeat()
 	for s := 0; s < n; s++ {
 		cScenario(log, seed, s)
 	}
+	fmt.Fprintf(log, "{\"ev\":\"heartbeat\",\"max_gap_ms\":%d}\n", hb())
 }
